@@ -3,8 +3,10 @@ import Ibx.Model.Rest
 /-
   T1 tie for C14: what the hand-written models of the router, the handlers and the client assume is exactly what the
   regenerated facts (Ibx/Gen/Rest.lean, re-read from pkg/rest, pkg/webui, pkg/server/lifecycle.go and pkg/rest/client on
-  every run) report.  If the source changes a route, a nil / ErrNotExist test, the place of MailboxForAddress, the
-  client's body or its escaping function, these obligations stop checking.
+  every run) report.  The facts are behavioural (the extractor interprets the handler and client bodies abstractly, through
+  helpers, if / switch / early returns alike), so renaming, re-nesting or re-wording the source does not disturb them; if the
+  source changes a route, the answer to a nil / ErrNotExist / failing store call, the place or argument of
+  MailboxForAddress, the client's method, body, escaping function or URL join, these obligations stop checking.
 -/
 namespace Ibx.Tie.Rest
 open Ibx Ibx.Model.ClientUrl Ibx.Model.Rest
@@ -36,39 +38,64 @@ theorem routes_known : Gen.Rest.routes.isSome = true := by decide
 def modelled : List Handler :=
   [.listV1, .showV1, .seenV1, .purgeV1, .sourceV1, .deleteV1, .wMessage, .wHtml, .wSource, .wAttach]
 
-/-- the Manager call each handler makes after canonicalising the name -/
-def mgrCallOf : Handler → List String
-  | .listV1 => ["GetMetadata"] | .purgeV1 => ["PurgeMessages"] | .seenV1 => ["MarkSeen"] | .deleteV1 => ["RemoveMessage"]
-  | .showV1 | .wMessage | .wHtml | .wAttach => ["GetMessage"]
-  | .sourceV1 | .wSource => ["SourceReader"]
-  | _ => []
+/-- how the model treats the single `message.Manager` call a handler makes after canonicalising the name -/
+inductive CallKind
+  | bulk     -- GetMetadata / PurgeMessages: every error is a 500
+  | mutate   -- MarkSeen / RemoveMessage: ErrNotExist is a 404, any other error a 500
+  | fetch    -- GetMessage / SourceReader: answers a possibly-nil message / reader
+  deriving DecidableEq, Repr
 
-/-- nil handling as the model has it: `nilGuarded` for the handlers that fetch a message -/
-def nilGuardOf (h : Handler) : String :=
-  match h with
-  | .listV1 | .purgeV1 | .seenV1 | .deleteV1 => "none"
-  | h => if nilGuarded h then "guarded" else "unguarded"
+/-- the Manager method each handler calls, with the ROLE of each argument as the extractor names it:
+    `canon` = result 0 of `MailboxForAddress(Vars["name"])`, `var:id` = `Vars["id"]` -/
+def mgrCallOf : Handler → String × String × CallKind
+  | .listV1 => ("GetMetadata", "(canon)", .bulk)
+  | .purgeV1 => ("PurgeMessages", "(canon)", .bulk)
+  | .seenV1 => ("MarkSeen", "(canon,var:id)", .mutate)
+  | .deleteV1 => ("RemoveMessage", "(canon,var:id)", .mutate)
+  | .sourceV1 | .wSource => ("SourceReader", "(canon,var:id)", .fetch)
+  | _ => ("GetMessage", "(canon,var:id)", .fetch)
 
-/-- ErrNotExist handling as the model has it: the guarded fetchers let `nil` fall through to the nil test, every other
-    handler that can see ErrNotExist tests for it and answers NotFound -/
-def notExistOf (h : Handler) : String :=
-  match h with
-  | .listV1 | .purgeV1 => "none"
-  | .seenV1 | .deleteV1 => "eq404"
-  | h => if nilGuarded h then "passNil" else "eq404"
+abbrev Row := List String × List String × List String
 
-/-- per handler: MailboxForAddress (error → `return err`) dominates and feeds the single Manager call the model makes;
-    the nil guard and the ErrNotExist → 404 mapping are the model's -/
+def mfa : String := "MailboxForAddress(var:name)"
+
+/-- the behaviour table of a handler as `Model.Rest.handle` has it, in the extractor's format and order.
+    `canon=err` → 500 (`extractMailbox = none ⇒ r500`); a failing fetch is a 500; `ErrNotExist` is a 404 wherever the model
+    can see it (`fetch`, `mgrMarkSeen`, `mgrRemove`); the `(nil, nil)` answer of the OLD store contract is a 404 in the
+    handlers with `nilGuarded`, a nil dereference in the others; PATCH without `"seen": true` never reaches MarkSeen;
+    the attachment route fails on a bad `{num}` before the fetch, and on an out-of-range one after it. -/
+def rowsOf (h : Handler) : List Row :=
+  let (m, args, kind) := mgrCallOf h
+  let pre : List String := if h = .seenV1 then ["canon=ok", "seen=true"] else ["canon=ok"]
+  let row (ans : String) (out : List String) : Row := (pre ++ [m ++ ":" ++ ans], [mfa, m ++ args], out)
+  [((["canon=err"], [mfa], ["error"]) : Row)] ++
+  (if h = .seenV1 then [(["canon=ok", "seen=false"], [mfa], ["done"])] else []) ++
+  (match kind with
+   | .bulk => [row "ioErr" ["error"], row "notExist" ["error"], row "ok" ["done"]]
+   | .mutate => [row "ioErr" ["error"], row "notExist" ["notFound"], row "ok" ["done"]]
+   | .fetch =>
+     [row "found" (if h = .wAttach then ["done", "error"] else ["done"]),
+      row "ioErr" ["error"],
+      row "nilnil" [if nilGuarded h then "notFound" else "panic"],
+      row "notExist" ["notFound"]]) ++
+  (if h = .seenV1 ∨ h = .wAttach then [(["canon=ok"], [mfa], ["error"])] else [])
+
+/-- per handler: MailboxForAddress of the URL's name comes first and its error ends the request with a 500; the single
+    Manager call the model makes gets the canonical name (and the URL's id); every answer of that call is treated as
+    `Model.Rest.handle` treats it (404 / 500 / nil dereference / render) -/
 theorem handlers_tie :
-    Gen.Rest.handlers = modelled.map (fun h => (handlerFn h, true, mgrCallOf h, nilGuardOf h, notExistOf h)) := by
+    Gen.Rest.handlers = modelled.map (fun h => (handlerFn h, rowsOf h)) := by
   decide +kernel
 
-/-- no handler is left with an unguarded use of a possibly-nil result UNLESS it maps ErrNotExist to 404 first
-    (what `handlers_total` needs from the code under the contract "missing ⇒ ErrNotExist") -/
+/-- no handler dereferences a nil result EXCEPT on the `(nil, nil)` answer of the old store contract, and every handler
+    that can do so answers ErrNotExist with 404 (what `handlers_total` needs from the code under "missing ⇒ ErrNotExist") -/
 theorem unguarded_only_behind_notExist_test :
-    ∀ r ∈ Gen.Rest.handlers, r.2.2.2.1 = "unguarded" → r.2.2.2.2 = "eq404" := by decide +kernel
+    ∀ h ∈ Gen.Rest.handlers, ∀ r ∈ h.2, "panic" ∈ r.2.2 →
+      ∃ m ∈ ["GetMessage", "SourceReader"], r.1.getLast? = some (m ++ ":nilnil") ∧
+        ∃ r' ∈ h.2, r'.1.getLast? = some (m ++ ":notExist") ∧ r'.2.2 = ["notFound"] := by
+  decide +kernel
 
-theorem nilGuard_known : ∀ r ∈ Gen.Rest.handlers, r.2.2.2.1 ≠ "unknown" ∧ r.2.2.2.2 ≠ "unknown" := by decide +kernel
+theorem nilGuard_known : ∀ h ∈ Gen.Rest.handlers, ∀ r ∈ h.2, r.1 ≠ ["unknown"] ∧ "unknown" ∉ r.2.2 := by decide +kernel
 
 /-- PATCH marks only under `"seen": true` (Model.Rest: Body.seenFalse is a no-op 200) -/
 theorem seenRequiresFlag_tie : Gen.Rest.seenRequiresFlag = some true := by decide
@@ -76,14 +103,22 @@ theorem seenRequiresFlag_tie : Gen.Rest.seenRequiresFlag = some true := by decid
 /-- the client's MarkSeen sends the body the handler requires (Props.C14.clientBody) -/
 theorem clientMarkSeenBody_tie : Gen.Rest.clientMarkSeenBody = "seenTrue" := by decide
 
-def shapeStr : Shape → String
-  | .box => "box" | .msg => "msg" | .source => "source"
+/-- the URI of each shape as the extractor writes it: literal text, `{QueryEscape:1}` = url.QueryEscape of the first
+    string parameter (the mailbox name), `{raw:2}` = the second string parameter (the id) as it is -/
+def shapeUri : Shape → String
+  | .box => "/api/v1/mailbox/{QueryEscape:1}"
+  | .msg => "/api/v1/mailbox/{QueryEscape:1}/{raw:2}"
+  | .source => "/api/v1/mailbox/{QueryEscape:1}/{raw:2}/source"
 
-/-- every client operation builds "/api/v1/mailbox/" + url.QueryEscape(name) … in the shape the model gives it -/
+/-- every client operation hands http.NewRequest the method the model gives it and the URI
+    "/api/v1/mailbox/" + url.QueryEscape(name) … in the shape the model gives it -/
 theorem clientEscapers_tie :
     Gen.Rest.clientEscapers =
-      [ClientOp.list, .get, .markSeen, .source, .delete, .purge].map (fun op => "QueryEscape:" ++ shapeStr op.shape) := by
+      [ClientOp.list, .get, .markSeen, .source, .delete, .purge].map (fun op => methodStr op.method ++ " " ++ shapeUri op.shape) := by
   decide +kernel
+
+/-- only MarkSeen sends a body -/
+theorem clientBodies_tie : Gen.Rest.clientBodies = ["none", "none", "seenTrue", "none", "none", "none"] := by decide
 
 theorem clientJoin_tie : Gen.Rest.clientJoin = "JoinPath" := by decide
 
